@@ -375,7 +375,7 @@ func init() {
 		ID:    "C20",
 		Level: "exploration",
 		Rule: "engine B over the two dialect grammars of the statement. Structure: every command sequence M|m (1 or 2 operand groups) + <=3 (thorough <=4) further commands over the dialect's verbs with 1 or 2 operand groups (implicit repetition), sub-path joins zM/zm, terminator z (generator) / optional z (converter), x 5 transforms / 4 (size,offset,outSize) triples x ADJ {0,3}. " +
-			"Lexis: for every verb, every number form {1,-2,+3,.5,-.25,10.5,0,007,+12.5,-0.75,+.5} in every operand position x every separator {space, comma, two spaces, nothing where the next sign or dot delimits}. Concat/MulAff3: all ordered triples of 8 matrices against float64 composition. Converter level: SVG files with <=3 paths x opacity attributes {absent,1,.5,.25} in both attribute spellings x 0..2 circles through ParseFile. " +
+			"Lexis: for every verb, every number form {1,-2,+3,.5,-.25,10.5,0,007,+12.5,-0.75,+.5} in every operand position x every separator {space, comma, two spaces, nothing where the next sign or dot delimits}. Concat/MulAff3: all ordered triples of 8 matrices against float64 composition. Converter level: SVG files with <=3 paths x opacity attributes {absent,1,.5,.25} in both attribute spellings x 0..2 circles x {viewBox 0 0 48 48 at size 48, viewBox 4 -2 24 24 at size 24} through ParseFile. " +
 			"Expected calls are built from the structured description (not by parsing): first move => StartPath(adj), later moves => close-and-move, one ClosePathEndPath; absolute operands full transform, relative scale only, H/V matching axis, radii scale, flags unchanged, rotation/360; within 3 float32 ulp at the magnitude of the largest term (converter 4). " +
 			"distinct = hash of the emitted call kinds; non-trivial = string with an implicit repetition, a sub-path join or a non-space separator",
 		Assumptions: []string{"strings outside the two dialects (exponents, whitespace after a verb, commas in the converter, z not followed by a move or the end) are not generated"},
@@ -666,7 +666,15 @@ type c20Path struct {
 type c20File struct {
 	Paths   []c20Path    `json:"paths"`
 	Circles [][3]float64 `json:"circles"`
+	View    int          `json:"view,omitempty"` // index into c20Views
 }
+
+// SVG viewBox attribute, size argument; outSize is 48 throughout (the converter's viewBox is fixed)
+var c20Views = []struct {
+	attr     string
+	vbx, vby float64
+	size     float64
+}{{"0 0 48 48", 0, 0, 48}, {"4 -2 24 24", 4, -2, 24}}
 
 var c20Ds = []string{"M4 4h10v10H4z", "M20 6l8 2-4 9z"}
 var c20Ops = []string{"", "o:1", "o:.5", "f:.5", "o:.25", "f:.25"}
@@ -679,7 +687,9 @@ func c20Files(w *mc.W) {
 			if len(paths) == 0 && len(cl) == 0 {
 				continue
 			}
-			c20FileOne(w, &c20File{Paths: append([]c20Path(nil), paths...), Circles: cl})
+			for v := range c20Views {
+				c20FileOne(w, &c20File{Paths: append([]c20Path(nil), paths...), Circles: cl, View: v})
+			}
 		}
 		if len(paths) == 3 || w.Expired() {
 			return
@@ -703,7 +713,12 @@ func c20FileOne(w *mc.W, f *c20File) {
 	w.Eval()
 	cs := c20Case{Dialect: "file", File: f}
 	var sb strings.Builder
-	sb.WriteString(`<svg xmlns="http://www.w3.org/2000/svg" width="48" height="48" viewBox="0 0 48 48">`)
+	view := c20Views[f.View]
+	fmt.Fprintf(&sb, `<svg xmlns="http://www.w3.org/2000/svg" width="%g" height="%g" viewBox="%s">`, view.size, view.size, view.attr)
+	k := 48 / view.size // scale; absolute operands: x*k - outSize/2 - viewBox origin*k
+	ax := func(x float64) float32 { return float32(x*k - 24 - view.vbx*k) }
+	ay := func(y float64) float32 { return float32(y*k - 24 - view.vby*k) }
+	rl := func(v float64) float32 { return float32(v * k) }
 	for _, p := range f.Paths {
 		attr := ""
 		if strings.HasPrefix(p.Opacity, "o:") {
@@ -732,7 +747,7 @@ func c20FileOne(w *mc.W, f *c20File) {
 	}
 	var out bytes.Buffer
 	var err error
-	if pnc, stack := guard(func() { _, err = mdicons.ParseFile(name, "action", "test", 48, 48, &out) }); pnc != nil {
+	if pnc, stack := guard(func() { _, err = mdicons.ParseFile(name, "action", "test", float32(view.size), 48, &out) }); pnc != nil {
 		fail("panic:"+panicKey(stack), fmt.Sprintf("panic: %v", pnc))
 		return
 	}
@@ -781,14 +796,14 @@ func c20FileOne(w *mc.W, f *c20File) {
 		if d != "" {
 			// the two fixed path strings, by hand
 			if d == c20Ds[0] {
-				want = append(want, rec.Call{M: rec.MStartPath, Adj: adj, A: [6]float32{4 - 24, 4 - 24}}, rec.Call{M: rec.MRelH, A: [6]float32{10}}, rec.Call{M: rec.MRelV, A: [6]float32{10}}, rec.Call{M: rec.MAbsH, A: [6]float32{4 - 24}})
+				want = append(want, rec.Call{M: rec.MStartPath, Adj: adj, A: [6]float32{ax(4), ay(4)}}, rec.Call{M: rec.MRelH, A: [6]float32{rl(10)}}, rec.Call{M: rec.MRelV, A: [6]float32{rl(10)}}, rec.Call{M: rec.MAbsH, A: [6]float32{ax(4)}})
 			} else {
-				want = append(want, rec.Call{M: rec.MStartPath, Adj: adj, A: [6]float32{20 - 24, 6 - 24}}, rec.Call{M: rec.MRelL, A: [6]float32{8, 2}}, rec.Call{M: rec.MRelL, A: [6]float32{-4, 9}})
+				want = append(want, rec.Call{M: rec.MStartPath, Adj: adj, A: [6]float32{ax(20), ay(6)}}, rec.Call{M: rec.MRelL, A: [6]float32{rl(8), rl(2)}}, rec.Call{M: rec.MRelL, A: [6]float32{rl(-4), rl(9)}})
 			}
 			started = true
 		}
 		for _, c := range circles {
-			cx, cy, r := float32(c[0]-24), float32(c[1]-24), float32(c[2])
+			cx, cy, r := ax(c[0]), ay(c[1]), rl(c[2])
 			if !started {
 				want = append(want, rec.Call{M: rec.MStartPath, Adj: adj, A: [6]float32{cx - r, cy}})
 				started = true
